@@ -11,7 +11,6 @@ import (
 	"fmt"
 	"net"
 	"net/http"
-	"sort"
 	"strings"
 	"sync"
 	"time"
@@ -24,6 +23,7 @@ type addrCase struct {
 	ID      int      `json:"id"`
 	Fam     string   `json:"fam"`
 	Trusted bool     `json:"trusted"`
+	Hist    string   `json:"hist"` // fresh | revoked (untrusted again after a trusted table, same Version string)
 	XRI     []string `json:"xri"`
 	XRP     string   `json:"xrp"`
 	XFF     string   `json:"xff"`
@@ -99,11 +99,19 @@ func addr() {
 		}
 		cases = append(cases, c)
 	})
-	sort.SliceStable(cases, func(i, j int) bool { return !cases[i].Trusted && cases[j].Trusted })
-	for _, phase := range []bool{false, true} {
+	for _, ph := range []struct {
+		phase bool
+		hist  string
+	}{{false, "fresh"}, {true, "fresh"}, {false, "revoked"}} {
+		phase := ph.phase
 		// the module objects are process-wide: one reload serves both servers (same table file content)
 		for _, s := range []*e2e.Server{s4, s6} {
-			s.WriteFile("mod_trust_clientip/trust_client_ip.data", trustTable(phase))
+			tt := trustTable(phase)
+			if ph.hist == "revoked" {
+				// the peer's range is dropped, the Version string stays that of the table before
+				tt = strings.Replace(tt, `"Version":"u"`, `"Version":"t"`, 1)
+			}
+			s.WriteFile("mod_trust_clientip/trust_client_ip.data", tt)
 		}
 		if err := s6.Reload("mod_trust_clientip", nil); err != nil {
 			fatal("reload trust table: %v", err)
@@ -111,7 +119,10 @@ func addr() {
 		var wg sync.WaitGroup
 		sem := make(chan struct{}, 16)
 		for _, c := range cases {
-			if c.Trusted != phase {
+			if c.Hist == "" {
+				c.Hist = "fresh"
+			}
+			if c.Trusted != phase || c.Hist != ph.hist {
 				continue
 			}
 			wg.Add(1)
